@@ -144,6 +144,9 @@ class SPIDeviceInterface(Elaboratable):
                 # If we're just completing a word, handle I/O.
                 with m.If(bit_count + 1 == self.word_size):
                     m.d.sync += [
+                        # Start counting the next word's bits from zero; for word sizes that
+                        # aren't a power of two the counter doesn't wrap around on its own.
+                        bit_count          .eq(0),
                         self.word_accepted .eq(1),
                         current_tx         .eq(self.word_out)
                     ]
